@@ -32,7 +32,6 @@ structure SR (k : Int) (pre : List Tok) (s s' : BState) : Prop where
   blkIndent : s'.blkIndent = s.blkIndent
   level : s'.level = s.level + k
   tight : s'.tight = s.tight
-  parentType : s'.parentType = s.parentType
   listIndent : s'.listIndent = s.listIndent
   tokens : s'.tokens = pre ++ s.tokens.map (Tok.shift k)
 
@@ -92,13 +91,13 @@ theorem shift_pushed (k : Int) (s s' : BState) (hl : s'.level = s.level + k) (a 
 
 theorem SR.push {k pre s s'} (h : SR k pre s s') (a b : String) (n : Int) (m c d e f) :
     SR k pre (s.pushFull a b n m c d e f) (s'.pushFull a b n m c d e f) := by
-  refine ⟨h.lines, h.notab, h.line, h.lineMax, h.blkIndent, ?_, h.tight, h.parentType, h.listIndent, ?_⟩
+  refine ⟨h.lines, h.notab, h.line, h.lineMax, h.blkIndent, ?_, h.tight, h.listIndent, ?_⟩
   · simp only [BState.pushFull, h.level]; split <;> split <;> omega
   · rw [pushFull_tokens, pushFull_tokens, h.tokens, shift_pushed k s s' h.level]
     simp
 
 theorem SR.setLineNo {k pre s s'} (h : SR k pre s s') (n : Nat) : SR k pre { s with line := n } { s' with line := n } :=
-  ⟨h.lines, h.notab, rfl, h.lineMax, h.blkIndent, h.level, h.tight, h.parentType, h.listIndent, h.tokens⟩
+  ⟨h.lines, h.notab, rfl, h.lineMax, h.blkIndent, h.level, h.tight, h.listIndent, h.tokens⟩
 
 /-! ### simulation of rules -/
 
@@ -425,8 +424,8 @@ theorem paraScan_sim {k} {ts ts' : List BRule} (hs : Sims k ts ts') (endLine : N
       simp only [hlt, ↓reduceIte]
       simp only [Except.ok.injEq, Prod.mk.injEq] at h; obtain ⟨e1, e2⟩ := h; subst e1; subst e2; exact ⟨_, rfl, hsr⟩
 
-theorem SR.setParent {k pre s s'} (h : SR k pre s s') (p : String) : SR k pre { s with parentType := p } { s' with parentType := p } :=
-  ⟨h.lines, h.notab, h.line, h.lineMax, h.blkIndent, h.level, h.tight, rfl, h.listIndent, h.tokens⟩
+theorem SR.setParent {k pre s s'} (h : SR k pre s s') (p p' : String) : SR k pre { s with parentType := p } { s' with parentType := p' } :=
+  ⟨h.lines, h.notab, h.line, h.lineMax, h.blkIndent, h.level, h.tight, h.listIndent, h.tokens⟩
 
 theorem sim_paragraph (k : Int) {ts ts' : List BRule} (hs : Sims k ts ts') (ws : List Nat) :
     Sim k (ruleParagraph ts ws) (ruleParagraph ts' ws) := by
@@ -437,7 +436,7 @@ theorem sim_paragraph (k : Int) {ts ts' : List BRule} (hs : Sims k ts ts') (ws :
   | ok v =>
     obtain ⟨next, s1⟩ := v
     rw [hq] at h
-    obtain ⟨s1', hq', hsr1⟩ := paraScan_sim hs s.lineMax _ _ next s1 (hsr.setParent "paragraph") hq
+    obtain ⟨s1', hq', hsr1⟩ := paraScan_sim hs s.lineMax _ _ next s1 (hsr.setParent "paragraph" "paragraph") hq
     have hq'' : paraScan ts' s'.lineMax (s'.lineMax - line + 1) (line + 1) { s' with parentType := "paragraph" } = .ok (next, s1') := by
       have hq3 := hq'
       rw [← hsr.lineMax] at hq3
@@ -455,9 +454,7 @@ theorem sim_paragraph (k : Int) {ts ts' : List BRule} (hs : Sims k ts ts') (ws :
       refine ⟨_, rfl, ?_⟩
       have h3 := (((hsr1.setLineNo next).push "paragraph_open" "p" 1 (some (line, next)) none "" "" "").push
         "inline" "" 0 (some (line, next)) (some []) (String.ofList (pyStrip ws c)) "" "").push "paragraph_close" "p" (-1) none none "" "" ""
-      have := h3.setParent s.parentType
-      rw [hsr.parentType]
-      exact this
+      exact h3.setParent s.parentType s'.parentType
 
 /-! ### the loop -/
 
@@ -527,7 +524,7 @@ theorem runBlockChain_sim {k} {rs rs' : List BRule} (hs : Sims k rs rs') :
       | false => exact ih line endLine b s1 hsr' h
 
 theorem SR.setTight {k pre s s'} (h : SR k pre s s') (b : Bool) : SR k pre { s with tight := b } { s' with tight := b } :=
-  ⟨h.lines, h.notab, h.line, h.lineMax, h.blkIndent, h.level, rfl, h.parentType, h.listIndent, h.tokens⟩
+  ⟨h.lines, h.notab, h.line, h.lineMax, h.blkIndent, h.level, rfl, h.listIndent, h.tokens⟩
 
 theorem blockLoop_sim {k} {rules rules' : List BRule} (hs : Sims k rules rules') (mn : Int) (endLine : Nat) :
     ∀ (fuel line : Nat) (he : Bool) {pre s s'} (t : BState), SR k pre s s' → blockLoop rules mn endLine fuel line he s = .ok t →
@@ -665,13 +662,13 @@ theorem NoTab.set {ls : List BLine} (h : NoTab ls) (i : Nat) {a : BLine} (ha : '
 
 theorem SR.setLine {k pre s s'} (h : SR k pre s s') (i : Nat) {a a' : BLine} (hz : zb a' = zb a) (ha : '\t' ∉ a.text) :
     SR k pre (s.setLine i a) (s'.setLine i a') :=
-  ⟨h.lines.set i hz, h.notab.set i ha, h.line, h.lineMax, h.blkIndent, h.level, h.tight, h.parentType, h.listIndent, h.tokens⟩
+  ⟨h.lines.set i hz, h.notab.set i ha, h.line, h.lineMax, h.blkIndent, h.level, h.tight, h.listIndent, h.tokens⟩
 
 theorem SR.setLineMax {k pre s s'} (h : SR k pre s s') (n : Nat) : SR k pre { s with lineMax := n } { s' with lineMax := n } :=
-  ⟨h.lines, h.notab, h.line, rfl, h.blkIndent, h.level, h.tight, h.parentType, h.listIndent, h.tokens⟩
+  ⟨h.lines, h.notab, h.line, rfl, h.blkIndent, h.level, h.tight, h.listIndent, h.tokens⟩
 
 theorem SR.setBlk {k pre s s'} (h : SR k pre s s') (n : Int) : SR k pre { s with blkIndent := n } { s' with blkIndent := n } :=
-  ⟨h.lines, h.notab, h.line, h.lineMax, rfl, h.level, h.tight, h.parentType, h.listIndent, h.tokens⟩
+  ⟨h.lines, h.notab, h.line, h.lineMax, rfl, h.level, h.tight, h.listIndent, h.tokens⟩
 
 /-- saved line entries: equal up to `bsCount`, tab-free -/
 def LRs (sv sv' : List BLine) : Prop := sv.map zb = sv'.map zb ∧ NoTab sv
@@ -804,9 +801,9 @@ theorem modify_sim (k : Int) (pre ts : List Tok) (i : Nat) (m : Option (Nat × N
 def finish6 (s5 : BState) (lm : Nat) (pt : String) (ntok line : Nat) : BState :=
   { s5 with lineMax := lm, parentType := pt, tokens := s5.tokens.modify ntok (fun t => t.setMap (some (line, s5.line))) }
 
-theorem SR.finish6 {k pre s5 s5'} (h : SR k pre s5 s5') (lm lm' : Nat) (pt pt' : String) (ntok line : Nat) (hlm : lm' = lm) (hpt : pt' = pt) :
+theorem SR.finish6 {k pre s5 s5'} (h : SR k pre s5 s5') (lm lm' : Nat) (pt pt' : String) (ntok line : Nat) (hlm : lm' = lm) :
     SR k pre (finish6 s5 lm pt ntok line) (finish6 s5' lm' pt' (pre.length + ntok) line) := by
-  refine ⟨h.lines, h.notab, h.line, hlm, h.blkIndent, h.level, h.tight, hpt, h.listIndent, ?_⟩
+  refine ⟨h.lines, h.notab, h.line, hlm, h.blkIndent, h.level, h.tight, h.listIndent, ?_⟩
   show List.modify _ _ _ = _
   rw [h.tokens, h.line, modify_sim]
   rfl
@@ -828,7 +825,7 @@ theorem sim_quote (k : Int) (codeOn : Bool) {ts ts' inner inner' : List BRule} (
     · cases silent <;> simp only [↓reduceIte, Bool.false_eq_true] at h ⊢
       · -- the real work
         obtain ⟨q1, q2, q3⟩ := quoteStrip_sim hz hnt
-        have hsr1 := ((hsr.setLine line q1 q3).setParent "blockquote")
+        have hsr1 := ((hsr.setLine line q1 q3).setParent "blockquote" "blockquote")
         cases hq : quoteScan ts endLine (endLine - line + 1) (line + 1) (quoteStrip l).2
             { (s.setLine line (quoteStrip l).1) with parentType := "blockquote" } [l] with
         | error e => rw [hq] at h; cases h
@@ -851,7 +848,7 @@ theorem sim_quote (k : Int) (codeOn : Bool) {ts ts' inner inner' : List BRule} (
             refine ⟨_, ⟨rfl, rfl⟩, ?_⟩
             have hsr5 := hsr4.push "blockquote_close" "blockquote" (-1) none none "" ">" ""
             have hlen : s2'.tokens.length = pre.length + s2.tokens.length := by rw [hsr2.tokens]; simp
-            have hsr6 := hsr5.finish6 s.lineMax s'.lineMax s.parentType s'.parentType s2.tokens.length line hsr.lineMax hsr.parentType
+            have hsr6 := hsr5.finish6 s.lineMax s'.lineMax s.parentType s'.parentType s2.tokens.length line hsr.lineMax
             rw [← hlen] at hsr6
             have hsr7 := restoreLines_sim saved saved' _ _ line hsr6 hsv2
             have hfin := hsr7.setBlk s2.blkIndent
